@@ -85,3 +85,11 @@ def _c15(ctx):
 
 
 REGISTRY["C15"] = _c15
+
+
+def _c10(ctx):
+    cov = pipeline.run_c10(ctx)
+    return ctx.finish("model_checking", cov, pipeline.ASSUME10)
+
+
+REGISTRY["C10"] = _c10
